@@ -62,10 +62,12 @@ type readOutcome struct {
 	Reads    int
 }
 
-// chunkReader returns its data in pieces of the given size (0 = all at once).
+// chunkReader returns its data in pieces of the given size (0 = all at once). With eofWithData the
+// last piece comes together with io.EOF (as io.Reader allows and length-aware sources do).
 type chunkReader struct {
-	b []byte
-	n int
+	b           []byte
+	n           int
+	eofWithData bool
 }
 
 func (c *chunkReader) Read(p []byte) (int, error) {
@@ -81,6 +83,9 @@ func (c *chunkReader) Read(p []byte) (int, error) {
 	}
 	copy(p, c.b[:n])
 	c.b = c.b[n:]
+	if c.eofWithData && len(c.b) == 0 {
+		return n, io.EOF
+	}
 	return n, nil
 }
 
@@ -89,8 +94,13 @@ func (c *chunkReader) Read(p []byte) (int, error) {
 func libDecode(comp []byte, crc bool, sizes []int, srcChunk int, limit int) (o readOutcome) {
 	o.Panic, o.Site = core.Catch(func() {
 		var src io.Reader = bytes.NewReader(comp)
-		if srcChunk > 0 {
+		switch {
+		case srcChunk > 0:
 			src = &chunkReader{b: comp, n: srcChunk}
+		case srcChunk == -1: // everything, together with io.EOF, in one call
+			src = &chunkReader{b: comp, eofWithData: true}
+		case srcChunk < -1: // pieces of -srcChunk bytes, the last one together with io.EOF
+			src = &chunkReader{b: comp, n: -srcChunk, eofWithData: true}
 		}
 		r, err := lzhuf.NewReader(src, crc)
 		if err != nil {
